@@ -1,10 +1,209 @@
-"""C09 extension (Mxp family): generators for the modelled functions."""
+"""C09 extension (Mxp family): generators for the modelled functions (bn_mxp_basic/slide/monty/dig/crt, bn_smb_leg)."""
 from props.bngen import hx, magnitude, signed
 
-TRUSTED = []
-CORPUS = []
+TRUSTED = [
+    "class A (Model/NtMxp.lean, proved in Lemmas/NtMxp.lean, theorems of Props/C09Mxp.lean, executed by the driver on every nt_mxp / "
+    "nt_mxp_crt / nt_smb leg line): bn_mxp_basic, bn_mxp_slide (= bn_mxp), bn_mxp_monty, bn_mxp_dig — early exits (m = 1, b = 0), "
+    "ERR_NO_VALID for an even or non-positive modulus, Montgomery form by its value (R = 2^(w*used(m)), reduction x -> x*R^-1 mod m), "
+    "square-and-multiply / window table + bn_rec_slw scanning / ladder loops, negative exponents through the model of bn_mod_inv "
+    "(bn_gcd_ext_basic cofactor loop); bn_mxp_crt recombination (sqr = 0 proved; sqr = 1 modelled and executed, no theorem); "
+    "bn_smb_leg = Legendre symbol for every a and odd prime b",
+    "inside the Mxp model the Montgomery reduction bn_mod_monty_comba and the conversions are taken at value level (x*R^-1 mod m for "
+    "0 <= x < m*R, which holds at every call of the loops); their digit-level correctness is the Mod family's / C02's subject",
+    "bn_mxp_sim (= bn_mxp_sim_few unrolled at n = 2) is class A as well (mxpSim, theorem mxp_sim_exact: signs of the exponents are ignored, "
+    "no zero-exponent exit, even modulus -> error); class C in the Mxp family: bn_mxp_sim_few for n != 2 and bn_mxp_sim_lot (not presented)",
+]
+
+# odd primes for Legendre / CRT lines (all below 2^256 so that they fit RLC_BN_DIGS of both configurations)
+PRIMES = [3, 5, 7, 11, 13, 97, 251, 257, 65521, 65537, 4294967291, 4294967311, 18446744073709551557, 18446744073709551629,
+          (1 << 61) - 1, (1 << 89) - 1, (1 << 107) - 1, (1 << 127) - 1,
+          0xffffffff00000001000000000000000000000000ffffffffffffffffffffffff]
+
+CORPUS = [
+    "nt_mxp basic 5 0 1", "nt_mxp slide 5 0 1", "nt_mxp monty 5 0 1", "nt_mxp dig 5 0 1", "nt_mxp mxp 5 3 1",
+    "nt_mxp basic 5 0 8", "nt_mxp slide 5 0 0", "nt_mxp monty 5 0 -7", "nt_mxp dig 3 0 6",
+    "nt_mxp basic 5 3 8", "nt_mxp slide 5 3 -7", "nt_mxp monty 3 5 0", "nt_mxp dig 3 5 a", "nt_mxp mxp 3 5 -1",
+    "nt_mxp basic 5 -3 7", "nt_mxp slide 5 -3 7", "nt_mxp monty 5 -3 7", "nt_mxp monty 3 -2 9", "nt_mxp slide 0 -1 7", "nt_mxp basic 7 -1 7",
+    "nt_mxp basic -5 3 7", "nt_mxp slide -5 3 7", "nt_mxp monty -5 3 7", "nt_mxp dig -5 3 7",
+    "nt_smb leg 6 3", "nt_smb leg 3 3", "nt_smb leg 5 1", "nt_smb leg 5 2", "nt_smb leg 5 0", "nt_smb leg -1 7", "nt_smb leg 5 -7", "nt_smb leg 5 8",
+    "nt_smb leg e 7", "nt_smb leg 2 7", "nt_smb leg 3 7", "nt_smb leg 0 7", "nt_smb leg -7 7", "nt_smb leg 9 f",
+    "nt_mxp_crt 5 3 3 7 b 0", "nt_mxp_crt 5 3 3 b 7 0", "nt_mxp_crt 5 3 3 7 7 0", "nt_mxp_crt 5 3 3 7 b 1", "nt_mxp_crt 5 0 0 7 b 0", "nt_mxp_crt 4d 3 3 7 b 0",
+    "nt_mxp_sim 2 3 5 2 7", "nt_mxp_sim 2 0 5 0 7", "nt_mxp_sim 2 0 5 0 8", "nt_mxp_sim 2 0 5 0 1", "nt_mxp_sim 2 3 5 0 7", "nt_mxp_sim 2 0 5 3 7",
+    "nt_mxp_sim 2 3 5 2 8", "nt_mxp_sim 2 3 5 2 0", "nt_mxp_sim 2 3 5 2 -7", "nt_mxp_sim 2 -3 5 2 7", "nt_mxp_sim 2 3 5 -2 7", "nt_mxp_sim -2 3 -5 3 7",
+    "nt_mxp_sim 7 3 5 2 7", "nt_mxp_sim e 1 15 1 7", "nt_mxp_sim 2 ff 5 1 7", "nt_mxp_sim 2 1 5 ff 7",
+    "nt_mxp_crt 5 3 3 8 b 0", "nt_mxp_crt 5 3 3 7 a 0", "nt_mxp_crt 5 3 3 1 b 0", "nt_mxp_crt 5 3 3 7 1 0",
+]
+
+THRESH = [1, 2, 3, 4, 7, 20, 21, 22, 23, 31, 32, 33, 34, 127, 128, 129, 255, 256, 257, 511, 512, 513, 514]
+
+
+def exponent(rng, bits, kind):
+    """an exponent of exactly `bits` bits of the named shape"""
+    top = 1 << (bits - 1)
+    if kind == "ones":
+        return (1 << bits) - 1
+    if kind == "single":
+        return top
+    if kind == "alt":
+        return int(("10" * bits)[:bits], 2)
+    if kind == "runs":          # long runs of zeros and ones
+        v, pos = 0, 0
+        while pos < bits:
+            run = 1 + rng.below(24)
+            if rng.chance(1, 3):
+                v |= ((1 << run) - 1) << pos
+            pos += run
+        return (v & (top - 1)) | top
+    if kind == "sparse":        # a few isolated one bits
+        v = top
+        for _ in range(1 + bits // 16):
+            v |= 1 << rng.below(bits)
+        return v
+    if kind == "lowzero":       # trailing zeros (windows end early)
+        z = rng.below(bits) if bits > 1 else 0
+        return ((rng.bits(bits) | top) >> z) << z
+    return rng.bits(bits) | top
+
+
+KINDS = ["ones", "single", "alt", "runs", "sparse", "lowzero", "rand", "rand"]
+
+
+def modulus(rng, w, digs, odd=True):
+    """structured moduli: one digit, multi digit, 2^k +- 1, digit-boundary values"""
+    k = rng.below(9)
+    md = 1 + rng.below(min(digs, 4))
+    if k == 0:
+        m = rng.choice([3, 5, 7, 9, 15, 255, 257])
+    elif k == 1:
+        j = 1 + rng.below(min(digs, 4))
+        m = (1 << (w * j)) - 1
+    elif k == 2:
+        j = 1 + rng.below(min(digs - 1, 3))
+        m = (1 << (w * j)) + 1
+    elif k == 3:
+        e = 2 + rng.below(w * min(digs, 4) - 2)
+        m = (1 << e) + rng.choice([-1, 1])
+    elif k == 4:
+        m = rng.bits(w) | 1 | (1 << (w - 1))        # one full digit
+    elif k == 5:
+        m = rng.choice(PRIMES)
+    else:
+        m = magnitude(rng, w, md) | 1
+    if not odd:
+        m += 1
+    return m if m > 1 else 3
+
+
+def bases(rng, w, digs, m):
+    am = abs(m) if m else 5
+    return [0, 1, 2, am - 1, am, am + 1, 2 * am, -1, -am, -(rng.below(am) + 1), rng.below(am), rng.bits(am.bit_length() + 9),
+            rng.bits(min(w * digs, 2 * am.bit_length() + w)), (1 << (w * ((am.bit_length() + w - 1) // w))) % am]
 
 
 def gen(rng, w, cap, digs, n):
     """structured lines for this family (n = budget of random lines; boundary lines come on top)"""
-    return []
+    out = []
+    maxe = w * digs                     # exponents are kept within RLC_BN_DIGS digits
+    lens = [l for l in THRESH if l <= maxe]
+    # 1. every variant by name at every window threshold, every exponent shape
+    for v in ("basic", "slide", "monty", "mxp"):
+        for l in lens:
+            for kind in (["ones", "single", rng.choice(KINDS)] if l > 2 else ["rand"]):
+                m = modulus(rng, w, digs)
+                a = rng.choice(bases(rng, w, digs, m))
+                e = exponent(rng, l, kind)
+                if rng.chance(1, 8):
+                    e = -e
+                out.append("nt_mxp %s %s %s %s" % (v, hx(a), hx(e), hx(m)))
+    # 2. every base class against every variant, small exponents 0..3 and a longer one
+    for v in ("basic", "slide", "monty", "mxp", "dig"):
+        m = modulus(rng, w, digs)
+        for a in bases(rng, w, digs, m):
+            e = rng.choice([0, 1, 2, 3, 5, rng.bits(min(w, 30)) + 1])
+            out.append("nt_mxp %s %s %s %s" % (v, hx(a), hx(e), hx(m)))
+        # moduli 1, 2, 3, even, non-positive: early exits first, then the reported error
+        for m2 in (1, 2, 3, 4, 6, (1 << w), (1 << w) - 2, 0, -1, -3, -4, modulus(rng, w, digs, odd=False)):
+            for e in (0, 1, 3, -1):
+                if v == "dig" and e < 0:
+                    continue
+                out.append("nt_mxp %s %s %s %s" % (v, hx(rng.choice([0, 1, 2, 5, -3])), hx(e), hx(m2)))
+        # digit exponents
+        if v == "dig":
+            for e in (1, 2, 3, (1 << w) - 1, 1 << (w - 1), (1 << (w - 1)) + 1, rng.bits(w), rng.bits(w // 2)):
+                m = modulus(rng, w, digs)
+                out.append("nt_mxp dig %s %s %s" % (hx(rng.choice(bases(rng, w, digs, m))), hx(e), hx(m)))
+    # 3. negative exponents: invertible and non-invertible bases (composite moduli with a known factor)
+    for v in ("basic", "slide", "monty", "mxp"):
+        for _ in range(6):
+            f = rng.choice([3, 5, 7, 255, 65537])
+            m = f * (magnitude(rng, w, 1 + rng.below(2)) | 1)
+            a = rng.choice([f, f * (rng.below(1000) + 1), rng.below(m), m - 1, 1, 0, m, 2, -f, -2])
+            e = -exponent(rng, rng.choice([1, 2, 5, 22, 33, 64]), rng.choice(KINDS))
+            out.append("nt_mxp %s %s %s %s" % (v, hx(a), hx(e), hx(m)))
+    # 3b. simultaneous exponentiation: unequal lengths, zero exponents, equal exponents, complementary bit patterns, every modulus class
+    for _ in range(60):
+        m = modulus(rng, w, digs) if rng.chance(5, 6) else rng.choice([1, 2, 4, 6, 0, -3, (1 << w), modulus(rng, w, digs, odd=False)])
+        lb = rng.choice(lens[:14])
+        le = rng.choice([lb, lb, 1, 2, max(1, lb - 1), lb + 1, rng.choice(lens[:14])])
+        b = exponent(rng, lb, rng.choice(KINDS))
+        e = exponent(rng, le, rng.choice(KINDS))
+        j = rng.below(10)
+        if j == 0:
+            b = 0
+        elif j == 1:
+            e = 0
+        elif j == 2:
+            b = e = 0
+        elif j == 3:
+            e = b
+        elif j == 4:        # complementary: never both bits set
+            e = ((1 << lb) - 1) ^ b
+        elif j == 5:        # always both bits set
+            e = b = (1 << lb) - 1
+        elif j == 6 and rng.chance(1, 2):
+            b = -b
+        elif j == 6:
+            e = -e
+        bs = bases(rng, w, digs, m)
+        out.append("nt_mxp_sim %s %s %s %s %s" % (hx(rng.choice(bs)), hx(b), hx(rng.choice(bs)), hx(e), hx(m)))
+    # 4. random lines
+    for _ in range(n):
+        k = rng.below(10)
+        if k < 6:
+            v = rng.choice(["basic", "slide", "monty", "mxp", "dig"])
+            m = modulus(rng, w, digs)
+            a = rng.choice(bases(rng, w, digs, m))
+            l = rng.choice(lens) if rng.chance(1, 2) else 1 + rng.below(min(maxe, 160))
+            e = exponent(rng, l, rng.choice(KINDS))
+            if v == "dig":
+                e &= (1 << w) - 1
+            elif rng.chance(1, 10):
+                e = -e
+            out.append("nt_mxp %s %s %s %s" % (v, hx(a), hx(e), hx(m)))
+        elif k < 8:
+            p = rng.choice(PRIMES)
+            a = rng.choice([0, 1, 2, 3, 4, p - 1, p, p + 1, 2 * p, 3 * p, -1, -p, -2 * p, rng.below(p), rng.below(p) ** 2, -rng.below(p) - 1,
+                            rng.bits(p.bit_length() + 8), rng.bits(min(w * digs, 2 * p.bit_length()))])
+            out.append("nt_smb leg %s %s" % (hx(a), hx(p)))
+            if rng.chance(1, 6):       # outside the contract (not an odd prime): the model alone judges
+                b = rng.choice([0, 1, 2, 9, 15, 21, 255, 8, 10, -3, -7, (1 << w) + 1, 561])
+                out.append("nt_smb leg %s %s" % (hx(rng.choice([0, 1, 2, b, b + 1, -1, rng.bits(20)])), hx(b)))
+        else:
+            # bn_mxp_crt brings m1 - m2 into [0, p) by repeated addition of p: about q/p iterations, so p and q of similar size
+            p = rng.choice(PRIMES)
+            q = rng.choice([x for x in PRIMES if x < 40 * p and p < 40 * x])
+            if (p * q).bit_length() > w * digs - 2:
+                p, q = 65537, 65521
+            j = rng.below(12)
+            if j == 0:
+                q = rng.choice([p, 9, 15, 2 * p + 1 if (2 * p + 1) % 2 else 21, 1])     # equal / composite / one
+            elif j == 1:
+                q = rng.choice([4, 6, p + 1])       # even
+            dp = rng.choice([0, 1, 2, p - 2, p - 1, rng.below(p), rng.bits(p.bit_length() + 3)])
+            dq = rng.choice([0, 1, 2, q - 1, rng.below(q) if q > 0 else 1, rng.bits(q.bit_length() + 3)])
+            a = rng.choice([0, 1, 2, p, q, p * q - 1, p * q, p * q + 1, rng.below(p * q), rng.below(p * q), -rng.below(p * q) - 1])
+            sqr = 1 if rng.chance(1, 5) and (p * p).bit_length() <= w * digs // 2 and (q * q).bit_length() <= w * digs // 2 else 0
+            if sqr:
+                a = a if a % p and a % q else 2     # L((a^b mod p^2)) needs a unit
+            out.append("nt_mxp_crt %s %s %s %s %s %d" % (hx(a), hx(dp), hx(dq), hx(p), hx(q), sqr))
+    return out
